@@ -785,6 +785,8 @@ def r3(ctx, r):
     def leaf3(n):
         if n.get("k") == "var" and n.get("d") == pred["d"]:
             return A("B")
+        if n is pred.get("init") or n is strip_casts(pred.get("init")):
+            return A("B")       # (Block.cond shows a `const bool` declared just before the branch by its initialiser: same value)
         cp = common.cmp_parts(n)
         if cp and cp[0] in ("==", "!=") and (Q_ + ".method") in show(n) and "HEAD" in show(n):
             return A("head") if cp[0] == "==" else Not(A("head"))
@@ -844,7 +846,9 @@ def r4(ctx, r):
     # the HEAD test is actually there and dominates the copy
     hb = [b for b in p.blocks.values() if b.cond is not None and leaf(strip_casts(b.cond)) is not None]
     r.instance()
-    r.expect(len(hb) >= 1 and any(search(p, ("entry",), lambda x: x is copy[0], eh=False, edge_ok=lambda b, si: b not in hb) is None for _ in [0]), p, None, "HEAD test", "the wire copy is reachable without passing the HEAD test", okdesc="HEAD test on every path to the copy")
+    # (a short-circuit `<bodyless> || method == HEAD` skips the test on the paths that clear anyway: such a path must pass a clear; whether the
+    # clear is late enough is what the abstraction above decides)
+    r.expect(len(hb) >= 1 and search(p, ("entry",), lambda x: x is copy[0], stop=lambda x: x in clears, eh=False, edge_ok=lambda b, si: b not in hb) is None, p, None, "HEAD test", "the wire copy is reachable without passing the HEAD test", okdesc="HEAD test (or a clear) on every path to the copy")
 
 
 class Renamed:
@@ -918,8 +922,17 @@ def r5(ctx, r):
         # (or handed to the helper of HttpServer that builds it; `int s = 500; if (mapped) s = …` and `const int s = mapped ? … : 500` alike)
         sv = {(_var(x.node["args"][0]) or {}).get("d") for x in els if x.kind == "stmt" and x.node.get("args") and ((x.node.get("k") == "ctor" and last(x.node.get("cls", "")) == "HttpResponse") or hs_callee(fb, x.node) is not None)} - {None}
 
+        _depth = [0]
+
         def starts_500(i):
             i = strip_casts(i) if i is not None else None
+            if i is not None and hs_callee(fb, i) is not None and _depth[0] < 2:
+                # `status = mapStatus(ex)`: the helper of HttpServer that maps the exception returns 500 on one of its ways out
+                _depth[0] += 1
+                try:
+                    return any(starts_500(x.node.get("v")) for x in common.returns(hs_callee(fb, i)))
+                finally:
+                    _depth[0] -= 1
             return i is not None and (const_value(i) == 500 or (i.get("k") == "cond" and any(isinstance(i.get(b_), dict) and const_value(strip_casts(i[b_])) == 500 for b_ in ("t", "f"))))
         stt = [x for x in els if x.kind == "stmt" and x.node.get("k") == "decl" and any(v["d"] in sv and "int" in (v.get("t") or "") and starts_500(v.get("init")) for v in x.node["vars"])]
         ok = ok and bool(stt)
